@@ -74,9 +74,9 @@ Print Assumptions version_order_total.
 
 (** the hypotheses are satisfiable: a diamond with a cycle, two majors of one project *)
 Example c10_example :
-  let a := [97] in let b := [98] in let c := [99] in let c2 := [99; 64; 118; 50] in
+  let a := [114; 47; 97] in let b := [114; 47; 98] in let c := [114; 47; 99] in let c2 := [114; 47; 99; 64; 118; 50] in
   let v x y z := VSem (mkSV x y z []) in
-  let U := mkU [] [((a, v 1 0 0), 1); ((b, v 1 0 0), 1); ((c, v 1 1 0), 1); ((c, v 1 2 0), 2); ((c2, v 2 0 0), 2)]
+  let U := mkU [114] [((a, v 1 0 0), 1); ((b, v 1 0 0), 1); ((c, v 1 1 0), 1); ((c, v 1 2 0), 2); ((c2, v 2 0 0), 2)]
                [((a, 1), mkSum [] [(c, v 1 1 0); (c2, v 2 0 0)]); ((b, 1), mkSum [] [(c, v 1 2 0)]);
                 ((c, 1), mkSum [] []); ((c, 2), mkSum [] [(a, v 1 0 0)])] [] [] [] in
   dawn_build_list (fun _ => O) 20 U [(a, (a, v 1 0 0)); (b, (b, v 1 0 0))]
